@@ -94,6 +94,8 @@ class MidiFile(object):
                         if current_length - duration != 0:
                             b.current_beat -= 1.0 / current_length
                             b.current_beat += 1.0 / duration
+                    elif len(t.bars) == 0:
+                        b.place_notes(NoteContainer(), duration)
                     if not b.place_notes(NoteContainer(), duration):
                         t + b
                         b = Bar(key, meter)
